@@ -103,6 +103,32 @@ func TestBoundedC20JSON(t *testing.T) {
 			cases++
 		}
 	}
+	// strings that are not valid UTF-8: encoding/json replaces the offending bytes by U+FFFD when marshalling, so the
+	// only string field (OSAPConfig.Cost) does not come back identical. Recorded finding (known_findings.json); any
+	// other difference in this round trip (an int field, the type, an error) still fails the stand-in.
+	for _, bad := range []string{"\xff", "XZ\xc3Cost", "\xed\xa0\x80"} {
+		cfg := &OSAPConfig{WindowSize: 1 << 20, MinMatchLen: 3, Cost: bad}
+		p, err := json.Marshal(cfg)
+		if err != nil {
+			t.Fatalf("OSAP Cost %q: Marshal: %v", bad, err)
+		}
+		got, err := ParseJSON(p)
+		if err != nil {
+			t.Fatalf("OSAP Cost %q: ParseJSON(%s): %v", bad, p, err)
+		}
+		g, ok := got.(*OSAPConfig)
+		if !ok {
+			t.Fatalf("OSAP Cost %q: ParseJSON(%s) has type %T", bad, p, got)
+		}
+		if g.Cost != bad {
+			fmt.Printf("LZVC-KNOWN id=cost-invalid-utf8 OSAPConfig{Cost: %q}: ParseJSON(json.Marshal(&cfg)) has Cost %q\n", bad, g.Cost)
+			g.Cost = bad
+		}
+		if !reflect.DeepEqual(g, cfg) {
+			t.Fatalf("OSAP Cost %q: ParseJSON(%s) = %+v, want %+v", bad, p, g, cfg)
+		}
+		cases++
+	}
 	// histories: a document with all fields set followed by one with all fields zero, across types
 	for rep := 0; rep < 20; rep++ {
 		for _, a := range c20Types {
@@ -115,7 +141,7 @@ func TestBoundedC20JSON(t *testing.T) {
 			}
 		}
 	}
-	fmt.Printf("LZVC-BOUNDED name=json-roundtrip cases=%d bound=7 config types; each int field x %d boundary values x 3 base patterns; %d pseudo-random values per type (seed 20); 20 x 49 two-document histories\n", cases, len(c20Ints), nrand)
+	fmt.Printf("LZVC-BOUNDED name=json-roundtrip cases=%d bound=7 config types; each int field x %d boundary values x 3 base patterns; %d pseudo-random values per type (seed 20); 20 x 49 two-document histories; 3 OSAP configurations whose Cost is not valid UTF-8\n", cases, len(c20Ints), nrand)
 }
 
 func TestBoundedC20Reject(t *testing.T) {
